@@ -14,7 +14,7 @@ LEVEL_TEXT = 'Exploration: Separation/ordering on ~6.4k miss-ratio-like curves p
 RULE = ('Cases = (miss-ratio-like curve: strictly increasing non-negative integer x with steps 1..50, y in [0,1] '
         'from families monotone, noisy, 1-digit plateaus, all-ones, steps, clustered high-curvature points; n in '
         '4..60|400; dx, dy, dz in (0,1] incl. 1.0 and values with x_max*dx < 1; optional x_max / y_range '
-        'overrides as demos/zmethod.py passes them).  Oracle: loop bound ceil((3 - min z)/dz) + n + 2; indices '
+        'overrides as demos/zmethod.py passes them).  Oracle: loop bound ceil((3 - min z)/dz) + n + 2 per activation of every while loop; indices '
         'integer, in range, strictly increasing; heights non-increasing; every pair of knees >= max(1, '
         'floor(x_max*dx)) apart in x and >= (y_max - y_min)*dy apart in y (same float expressions as the '
         'statement); getPoints == x[knees].  Non-trivial: >= 2 knees reported.  The share of cases that '
@@ -101,6 +101,9 @@ def oracle(case, rec):
     if not math.isfinite(minz):
         rec.tag('nonfinite-zscore-skipped')
         return
+    # rounds of the threshold sweep (threshold lowered by dz per round until below the minimum z-score);
+    # a while loop nested in that sweep is counted per activation (kv.guard), so the same number also
+    # bounds a walk over the (at most n) candidate groups of one round
     bound = int(math.ceil(max(0.0, 3 - minz) / dz)) + n + 2
     out = rec.call(bound, zm.knees, p, dx, dy, dz, x_max, y_range, _site='zmethod.knees')
     hits = guard.probe_hits()
